@@ -39,6 +39,10 @@ Definition spec_stream_fast (levf : text -> text -> nat) (words : list (text * m
            (enum_from 0 words).
 
 Definition dist_le (a b : fres) : bool := r_dist a <=? r_dist b.
+(* |a, b| a.1.cmp(&b.1).then_with(|| a.0.cmp(b.0)) on (word, distance) pairs (fix 5a329ea): a total order,
+   two pairs compare Equal only when they are the same pair — the (unstable) sort has ONE possible outcome *)
+Definition scored_le (a b : text * nat) : bool :=
+  if snd a <? snd b then true else if snd a =? snd b then text_leb (fst a) (fst b) else false.
 Definition word_le (a b : fres) : bool := text_leb (r_word a) (r_word b).
 Definition same_word (a b : fres) : bool := text_eqb (r_word a) (r_word b).
 
@@ -72,7 +76,7 @@ Section Fuzzy.
     let ql := to_lower is_lower lower qn in
     let cands := filter (in_window (length qn) d) (mut_words m) in
     do scored <- mut_scan qn ql d cands [] [];
-    let top := firstn k (isort (fun a b => snd a <=? snd b) scored) in
+    let top := firstn k (isort scored_le scored) in        (* sorted_unstable_by((distance, word)).take(k) *)
     map_res (fun wd =>
                match mut_meta is_lower lower m (fst wd) with            (* .unwrap() *)
                | Some md => Ok (mkfres (fst wd) (snd wd) md)
